@@ -2,7 +2,7 @@
 From Coq Require Import List ZArith Bool Sorted Permutation Lia Arith.
 From S4.Model Require Import Merge.
 Import ListNotations.
-Open Scope Z_scope.
+Local Open Scope Z_scope.
 
 (* ------------------------------------------------------------------ first_min *)
 
